@@ -165,3 +165,114 @@ fn leaf_str3() {
     kani::cover!(b[0] == b'o' && b[1] == b'u' && b[2] == b't', "must: control command out");
     kani::cover!(b[0] == b'M' && b[1] == b'I' && b[2] == b'N', "must: native MIN");
 }
+
+// text tokens "^x" / "^xy": both loaders must strip exactly the one leading caret
+fn text_of(o: &Rc<dyn RTObject>) -> Option<&[u8]> {
+    Value::get_value::<&crate::value_type::StringValue>(o.as_ref()).map(|s| s.string.as_bytes())
+}
+
+fn caret_text(bytes: &[u8]) {
+    let s1 = unsafe { String::from_utf8_unchecked(bytes.to_vec()) };
+    let s2 = unsafe { String::from_utf8_unchecked(bytes.to_vec()) };
+    let a = json_read::jtoken_to_runtime_object(&serde_json::Value::String(s1), None);
+    let mut t = JsonTokenizer::new_from_str("");
+    let b = jtoken_to_runtime_object(&mut t, JsonValue::String(s2), None);
+    match (&a, &b) {
+        (Ok(x), Ok(ArrayElement::RTObject(y))) => {
+            let tx = text_of(x);
+            let ty = text_of(y);
+            assert!(tx.is_some() && ty.is_some(), "C14: a \"^...\" token must load as a string value in both loaders");
+            let (tx, ty) = (tx.unwrap(), ty.unwrap());
+            assert!(tx.len() == bytes.len() - 1 && ty.len() == bytes.len() - 1, "C14: a loader stripped more or less than the one leading caret of a text token");
+            let mut i = 0;
+            while i < tx.len() {
+                assert!(tx[i] == bytes[i + 1] && ty[i] == bytes[i + 1], "C14: the two loaders build different text from the same token");
+                i += 1;
+            }
+        }
+        _ => assert!(false, "C14: a \"^...\" token was rejected by one of the loaders"),
+    }
+    std::mem::forget((a, b));
+}
+
+#[kani::proof]
+#[kani::unwind(8)]
+#[kani::stub(alloc::fmt::format, stub_format)]
+fn leaf_caret_text_1() {
+    let x = ascii(kani::any());
+    kani::cover!(x == b'^', "must: text that itself starts with a caret");
+    kani::cover!(x == b'a', "must: plain text");
+    caret_text(&[b'^', x]);
+}
+
+#[kani::proof]
+#[kani::unwind(8)]
+#[kani::stub(alloc::fmt::format, stub_format)]
+fn leaf_caret_text_2() {
+    let x = ascii(kani::any());
+    let y = ascii(kani::any());
+    kani::cover!(x == b'^' && y == b'_', "must: text that itself starts with a caret");
+    caret_text(&[b'^', x, y]);
+}
+
+// short non-text tokens: both loaders must build the same KIND of object (control command and
+// which, native function and which, glue, void, string value, or rejection)
+fn kind(o: &Rc<dyn RTObject>) -> (u8, u32) {
+    if let Some(c) = o.as_any().downcast_ref::<ControlCommand>() {
+        return (6, c.command_type as u32);
+    }
+    if let Some(n) = o.as_any().downcast_ref::<NativeFunctionCall>() {
+        return (7, n.op as u32);
+    }
+    if o.as_any().is::<Glue>() {
+        return (5, 0);
+    }
+    if o.as_any().is::<Void>() {
+        return (8, 0);
+    }
+    if o.as_any().is::<Value>() {
+        return (4, 0);
+    }
+    (9, 0)
+}
+
+fn kinds_agree(bytes: &[u8]) {
+    let s1 = unsafe { String::from_utf8_unchecked(bytes.to_vec()) };
+    let s2 = unsafe { String::from_utf8_unchecked(bytes.to_vec()) };
+    let a = json_read::jtoken_to_runtime_object(&serde_json::Value::String(s1), None);
+    let mut t = JsonTokenizer::new_from_str("");
+    let b = jtoken_to_runtime_object(&mut t, JsonValue::String(s2), None);
+    let ka = match &a {
+        Ok(o) => kind(o),
+        Err(_) => (0, 0),
+    };
+    let kb = match &b {
+        Ok(ArrayElement::RTObject(o)) => kind(o),
+        Ok(_) => (10, 0),
+        Err(_) => (0, 0),
+    };
+    assert!(ka == kb, "C14: the two loaders build different kinds of object from the same string token");
+    kani::cover!(ka.0 == 6, "control command");
+    kani::cover!(ka.0 == 7, "native function");
+    kani::cover!(ka.0 == 0, "rejected");
+    std::mem::forget((a, b));
+}
+
+#[kani::proof]
+#[kani::unwind(16)]
+#[kani::stub(alloc::fmt::format, stub_format)]
+fn leaf_kind_1() {
+    let x = ascii(kani::any());
+    kani::assume(x != b'^');
+    kinds_agree(&[x]);
+}
+
+#[kani::proof]
+#[kani::unwind(16)]
+#[kani::stub(alloc::fmt::format, stub_format)]
+fn leaf_kind_2() {
+    let x = ascii(kani::any());
+    let y = ascii(kani::any());
+    kani::assume(x != b'^');
+    kinds_agree(&[x, y]);
+}
